@@ -5,6 +5,7 @@ import (
 	"encoding/binary"
 	"fmt"
 	"math/rand"
+	"strings"
 
 	"github.com/codenotary/immudb/embedded/store"
 )
@@ -206,7 +207,7 @@ func plan(cfgIdx int, img *image, rng *rand.Rand, budget int) []*job {
 			add(ti, "entry.vOff", "bit55", txp(t, fo.lo, beBytes(uint64(e.vOff)|1<<55, 8)))
 		}
 		// multi-field edits inside one record
-		for k := 0; k < 6; k++ {
+		for k := 0; k < 4; k++ {
 			var ps []patch
 			cls := "multi"
 			for n := 0; n < 2+rng.Intn(2); n++ {
@@ -219,7 +220,7 @@ func plan(cfgIdx int, img *image, rng *rand.Rand, budget int) []*job {
 			add(ti, cls, "multi-field", ps...)
 		}
 		// scribbles: a random run of bytes anywhere in the record
-		for k := 0; k < 6; k++ {
+		for k := 0; k < 4; k++ {
 			n := 2 + rng.Intn(40)
 			if n > len(t.rec) {
 				n = len(t.rec)
@@ -332,9 +333,14 @@ func plan(cfgIdx int, img *image, rng *rand.Rand, budget int) []*job {
 		perm := rng.Perm(len(jobs))
 		for _, i := range perm {
 			j := jobs[i]
-			k := j.class + "/" + j.kind
-			if len(j.kind) > 8 && (j.class == "value.bytes" || j.class == "relocate") {
-				k = j.class
+			// always kept: one job of every offset class, and of every kind for the value reference,
+			// the consistent rewrites and the value bytes
+			k := classFamily(j.class)
+			switch k {
+			case "entry.vLen", "entry.vOff", "entry.vOff+vLen", "rewrite":
+				k += "/" + j.kind
+			case "value.bytes":
+				k += "/" + strings.SplitN(j.kind, "-", 2)[0]
 			}
 			if !seen[k] {
 				seen[k] = true
@@ -357,7 +363,16 @@ func plan(cfgIdx int, img *image, rng *rand.Rand, budget int) []*job {
 	}
 	for i, j := range jobs {
 		j.skip = i%4 == 0
-		j.rebuild = i%8 == 3
+		// index rebuild from the corrupted logs: always when the key, its length or the key metadata
+		// may be affected, for a half / a quarter of the other jobs
+		switch classFamily(j.class) {
+		case "entry.key", "entry.kLen", "entry.md", "entry.mdLen", "rewrite", "relocate":
+			j.rebuild = true
+		case "multi", "scribble", "zeroed":
+			j.rebuild = i%2 == 0
+		default:
+			j.rebuild = i%4 == 1
+		}
 		clampVLen(img, j)
 	}
 	// one probe per image of what a huge vLen costs (run on its own, after the parallel batch)
